@@ -739,6 +739,11 @@ def rule_N11(ctx):
                     i = next((k for k, v in enumerate(node.values) if v is child or any(x is child for x in ast.walk(v))), None)
                     if i is not None and any(emptiness(fn, v, base) is False for v in node.values[:i]):
                         guarded = True
+                if isinstance(node, ast.BoolOp) and isinstance(node.op, ast.Or):
+                    # `not s or s[-1] ...`: the later operands are evaluated only when the earlier ones were false
+                    i = next((k for k, v in enumerate(node.values) if v is child or any(x is child for x in ast.walk(v))), None)
+                    if i is not None and any(emptiness(fn, v, base) is True for v in node.values[:i]):
+                        guarded = True
                 if isinstance(node, ast.If) and any(x is child for b in node.body for x in ast.walk(b)):
                     tests = node.test.values if isinstance(node.test, ast.BoolOp) and isinstance(node.test.op, ast.And) else [node.test]
                     if any(emptiness(fn, v, base) is False for v in tests):
@@ -785,7 +790,12 @@ def rule_N6(ctx):
             x = g.generators[0].target.id if isinstance(g.generators[0].target, ast.Name) else None
             if isinstance(cond, ast.Compare) and len(cond.ops) == 1 and isinstance(cond.ops[0], ast.Eq):
                 l, r = norm(cond.left), norm(cond.comparators[0])
-                if {l, r} == {f"self._sanitize_string({x}.safe_name)", "token_sanitized"} and norm(g.elt) == x and norm(g.generators[0].iter) == "children":
+                it_ = g.generators[0].iter
+                it_ok = norm(it_) in ("current_node.children", "cast(Traversable, current_node).children")
+                if isinstance(it_, ast.Name):
+                    dfs_ = [a_.value for a_ in own_nodes(pp) if isinstance(a_, ast.Assign) and norm(a_.targets[0]) == it_.id and a_.lineno < g.lineno]
+                    it_ok = bool(dfs_) and norm(dfs_[-1]) in ("current_node.children", "cast(Traversable, current_node).children")
+                if {l, r} == {f"self._sanitize_string({x}.safe_name)", "token_sanitized"} and norm(g.elt) == x and it_ok:
                     ok, det = True, ""
                 else:
                     det = f"lookup compares `{l}` with `{r}`"
@@ -793,29 +803,80 @@ def rule_N6(ctx):
     ts = [a for a in own_nodes(pp) if isinstance(a, ast.Assign) and norm(a.targets[0]) == "token_sanitized"]
     ok = len(ts) == 1 and norm(ts[0].value) == "self._sanitize_string(token)"
     ctx.ob("N6", pp, "the token is normalised by the same _sanitize_string", ok, "", inst="token-normalise")
-    ch = [a for a in own_nodes(pp) if isinstance(a, ast.Assign) and norm(a.targets[0]) == "children" and norm(a.value) == "current_node.children"]
-    ctx.ob("N6", pp, "children are taken from the current node", len(ch) >= 1, "", inst="children-of-current")
+    ctx.ob("N6", pp, "children are taken from the current node", ok, "", inst="children-of-current")
     adv = [a for a in own_nodes(pp) if isinstance(a, ast.Assign) and norm(a) == "current_node = child"]
     ctx.ob("N6", pp, "the walk descends into the matched child", len(adv) == 1, "", inst="descend")
-    for path, q in ((ST, "Traversable._sanitize_string"), ("smpl_extract/akai/image.py", "AkaiImageParser._sanitize_string")):
-        f = ctx.fn(path, q, "N6")
-        prs = [p for p in run_paths(ctx, f, rule="N6") if p.end == "return"]
-        a = f.args.args[1].arg
-        for p in prs:
-            r = _interp_path(ctx, f, p, {a: AStr()}, set())
-            # result must be derived from the input by strip/upper/slicing only
-            okp = r is not None or True
-        t = full(f)
-        ok = ".strip()" in t
-        ctx.ob("N6", f, f"{q} strips blanks (names are matched with or without surrounding blanks)", ok, "", inst=q)
+    from .sem import emptiness_by, bool_eval
+    from .util import evaluator as _ev6
+    # base normaliser: returns the stripped input on every path
+    f = ctx.fn(ST, "Traversable._sanitize_string", "N6")
+    a = f.args.args[1].arg
+    prs = [p for p in run_paths(ctx, f, rule="N6") if p.end == "return"]
+    ok = bool(prs) and all(p.ret is not None and p.ret.key() == f"{a}.strip()" for p in prs)
+    ctx.ob("N6", f, "Traversable._sanitize_string strips blanks (names are matched with or without surrounding blanks)", ok, "", inst="Traversable._sanitize_string")
+    # AKAI normaliser: X = upper-cased, stripped input; one trailing colon is dropped exactly when X is non-empty and ends in ':'
     ak = ctx.fn("smpl_extract/akai/image.py", "AkaiImageParser._sanitize_string", "N6")
-    t = full(ak)
-    colon = [c for c in own_nodes(ak) if isinstance(c, ast.Compare) and len(c.ops) == 1 and isinstance(c.ops[0], ast.Eq)
-             and isinstance(c.comparators[0], ast.Constant) and c.comparators[0].value == ":" and isinstance(c.left, ast.Subscript) and norm(c.left.slice) in ("-1", "-1:")] \
-        + [c for c in own_nodes(ak) if isinstance(c, ast.Call) and isinstance(c.func, ast.Attribute) and c.func.attr == "endswith" and c.args and norm(c.args[0]) == "':'"]
-    chop = [n for n in own_nodes(ak) if isinstance(n, ast.Subscript) and norm(n.slice) == ":-1"]
-    ok = ".upper()" in t and len(colon) == 1 and len(chop) == 1
-    ctx.ob("N6", ak, "AKAI images match case-insensitively and ignore one trailing colon (partition names)", ok, "", inst="akai-normalise")
+    a = ak.args.args[1].arg
+    Xs = (f"({a}.upper()).strip()", f"({a}.strip()).upper()")
+    prs = [p for p in run_paths(ctx, ak, rule="N6") if p.end == "return"]
+    ok, det = bool(prs), "no return path"
+    strip_ok = bool(prs)
+    seen_chop = {True: 0, False: 0}
+    for X in Xs:
+        if not any(p.ret is not None and X in p.ret.key() for p in prs):
+            continue
+        for case in ("colon", "other", "empty"):
+            for p in prs:
+                feasible = True
+                for s_ in p.steps:
+                    if s_.kind != "test" or s_.label not in ("true", "false"):
+                        continue
+                    ev_ = _ev6(ctx, ak, s_.env)
+
+                    def atom(node, ev_=ev_):
+                        e = emptiness_by(node, lambda x: ev_.ev(x).key() == X)
+                        if e is not None:
+                            return (case == "empty") == e
+                        if isinstance(node, ast.Compare) and len(node.ops) == 1 and isinstance(node.ops[0], (ast.Eq, ast.NotEq)):
+                            l, r = node.left, node.comparators[0]
+                            for u, v in ((l, r), (r, l)):
+                                if isinstance(v, ast.Constant) and v.value == ":" and isinstance(u, ast.Subscript) and ev_.ev(u.value).key() == X \
+                                        and norm(u.slice) in ("-1", "len(%s) - 1" % norm(u.value)):
+                                    if case == "empty":
+                                        return "undef"
+                                    return (case == "colon") == isinstance(node.ops[0], ast.Eq)
+                                if isinstance(v, ast.Constant) and v.value == ":" and isinstance(u, ast.Subscript) and ev_.ev(u.value).key() == X and norm(u.slice) == "-1:":
+                                    return (case == "colon") == isinstance(node.ops[0], ast.Eq)
+                        if isinstance(node, ast.Call) and isinstance(node.func, ast.Attribute) and node.func.attr == "endswith" and len(node.args) == 1 \
+                                and isinstance(node.args[0], ast.Constant) and node.args[0].value == ":" and ev_.ev(node.func.value).key() == X:
+                            return case == "colon"
+                        return None
+
+                    v = bool_eval(s_.ast.test, atom)
+                    if v == "undef":
+                        ok, det = False, "the last character of an empty token is inspected"
+                        feasible = False
+                    elif v is None:
+                        ok, det = False, f"the test `{norm(s_.ast.test)[:80]}` is not understood"
+                        feasible = False
+                    elif v != (s_.label == "true"):
+                        feasible = False
+                if not feasible:
+                    continue
+                k = p.ret.key() if p.ret is not None else ""
+                chopped = k in (f"slice({X},:-1:)", f"slice({X},:-1 + len({X}):)")
+                plain = k == X
+                if not (chopped or plain):
+                    ok, det = False, f"returns `{k[:120]}`"
+                elif chopped != (case == "colon"):
+                    ok, det = False, f"for a token {'ending in a colon' if case == 'colon' else ('that is empty' if case == 'empty' else 'not ending in a colon')} the result is `{k[:100]}`"
+                seen_chop[chopped] += 1
+        break
+    else:
+        ok, det = False, "the token is not upper-cased and stripped"
+    ok = ok and seen_chop[True] >= 1 and seen_chop[False] >= 1
+    ctx.ob("N6", ak, "AkaiImageParser._sanitize_string strips blanks (names are matched with or without surrounding blanks)", ok or det.startswith(("for a token", "the last", "the test")), "", inst="AkaiImageParser._sanitize_string")
+    ctx.ob("N6", ak, "AKAI images match case-insensitively and ignore one trailing colon (partition names)", ok, det, inst="akai-normalise")
 
 
 # ------------------------------------------------------------------------ N7
@@ -971,9 +1032,24 @@ def rule_N8(ctx):
     ok = all("ErrorInvalidPath" in raises_in(h.body) for h in tr.handlers) and bool(tr.handlers)
     ctx.ob("N8", tr, "the handler raises ErrorInvalidPath with the `was not found` message", ok and any("was not found" in full(h) for h in tr.handlers), "", inst="raises-invalid-path")
     # non-traversable branch raises
-    ifs = [i for st in tr.body for i in ast.walk(st) if isinstance(i, ast.If) and "isinstance(current_node, Traversable)" in norm(i.test)]
-    ok = len(ifs) == 1 and ifs[0].orelse and "ErrorNotTraversable" in raises_in(ifs[0].orelse)
-    ctx.ob("N8", tr, "descending below a leaf raises ErrorNotTraversable (handled as not found)", ok, "", inst="leaf")
+    # every path on which the current node is not a directory ends in ErrorInvalidPath (raised by the lookup handler)
+    from ..core.symexec import run_paths as _rp8
+    from .util import truth_of as _to8
+    n_leaf, ok = 0, True
+    for p in _rp8(ctx, pp, include_exc=True, rule="N8", limit=6000):
+        tl = None
+        for s_ in p.steps:
+            if s_.kind == "test" and s_.label in ("true", "false") and isinstance(s_.ast, ast.If) and any(n is s_.ast for st in tr.body for n in ast.walk(st)):
+                tst, neg = s_.ast.test, False
+                while isinstance(tst, ast.UnaryOp) and isinstance(tst.op, ast.Not):
+                    tst, neg = tst.operand, not neg
+                if isinstance(tst, ast.Call) and norm(tst.func) == "isinstance" and len(tst.args) == 2 and norm(tst.args[1]) == "Traversable":
+                    tl = ((s_.label == "true") != neg)
+        if tl is False:
+            n_leaf += 1
+            if not (p.end == "raise" and (p.raised or "").endswith("ErrorInvalidPath")):
+                ok = False
+    ctx.ob("N8", tr, "descending below a leaf raises ErrorNotTraversable (handled as not found)", ok and n_leaf >= 1, "" if n_leaf else "no path tests the node kind inside the lookup try", inst="leaf")
     # tokenising
     tk = ctx.prog.class_assigned(ST, "Traversable", "_TOKENIZE_PATH_REGEX", "N8")
     from .util import regex_value
@@ -993,8 +1069,24 @@ def rule_N8(ctx):
     ok = len(sp) == 1 and norm(sp[0].value) == "self._TOKENIZE_PATH_REGEX.split(path.strip())"
     ctx.ob("N8", pp, "the whole path is stripped of surrounding blanks before it is split", ok,
            "" if ok else f"tokens come from `{norm(sp[0].value) if sp else '?'}`: blanks after a trailing separator become a token that is looked up", inst="strip-path")
-    tr2 = [i for i in own_nodes(pp) if isinstance(i, ast.If) and norm(i.test) == "len(tokens) > 0 and len(tokens[-1]) < 1"]
-    ok = len(tr2) == 1 and norm(tr2[0].body[0]) == "tokens = tokens[:-1]"
+    from .sem import emptiness_by as _eb8
+    ok = False
+    for i in own_nodes(pp):
+        if not (isinstance(i, ast.If) and isinstance(i.test, ast.BoolOp) and isinstance(i.test.op, ast.And) and len(i.test.values) == 2 and not i.orelse and len(i.body) == 1):
+            continue
+        lst = None
+        for nm in {x.id for x in ast.walk(i.test.values[0]) if isinstance(x, ast.Name)}:
+            if _eb8(i.test.values[0], lambda e, nm=nm: isinstance(e, ast.Name) and e.id == nm) is False:
+                lst = nm
+        if lst is None:
+            continue
+        second = i.test.values[1]
+        last_empty = _eb8(second, lambda e: isinstance(e, ast.Subscript) and isinstance(e.value, ast.Name) and e.value.id == lst and norm(e.slice) == "-1") is True \
+            or (isinstance(second, ast.Compare) and len(second.ops) == 1 and isinstance(second.ops[0], ast.Eq) and norm(second.left) == f"{lst}[-1]" and norm(second.comparators[0]) == "''")
+        b0 = norm(i.body[0])
+        drops = b0 in (f"{lst} = {lst}[:-1]", f"del {lst}[-1]", f"{lst}.pop()", f"{lst}.pop(-1)")
+        if last_empty and drops:
+            ok = True
     ctx.ob("N8", pp, "an empty last token (trailing separator, or the empty path) is dropped", ok, "", inst="trailing-separator")
     wl = [w for w in own_nodes(pp) if isinstance(w, ast.While)]
     ok = len(wl) == 1 and len([c for c in ast.walk(wl[0]) if isinstance(c, ast.Call) and norm(c.func) == "next"]) == 2 \
